@@ -10,6 +10,7 @@ VARIANTS = {
     "default": ("", []),
     "stripped": ("_strip", ["-ldflags=-s"]),
     "external": ("_ext", ["-ldflags=-linkmode=external"]),   # the one mode in which the function slide is not zero
+    "external-stripped": ("_ext_strip", ["-ldflags=-linkmode=external -s"]),   # non-zero function slide AND no symbol for the variable anchor
     "pie": ("_pie", ["-buildmode=pie"]),
     "pie-stripped": ("_pie_strip", ["-buildmode=pie", "-ldflags=-s"]),
 }
@@ -41,7 +42,7 @@ def run(replay=None):
         m_ok, _, mlog = vlib.coq_make(["Model/SymLookup.vo"])
         if not m_ok:
             raise vlib.Infra("Model/SymLookup.v does not compile:\n" + mlog[-1500:])
-    modes = ["default", "stripped", "external"] if ck.tier == "quick" else list(VARIANTS)
+    modes = ["default", "stripped", "external", "external-stripped"] if ck.tier == "quick" else list(VARIANTS)
     summary = {}
     evaluated = 0
     for mode in modes:
@@ -80,6 +81,12 @@ def run(replay=None):
                 summary[mode]["absent_tried"] = r["tried"]
                 if r["resolved"]:
                     ck.impl_violation("absent-name-resolved:" + mode, "link mode %s: %d absent / near-miss names resolve to an address; first: %s" % (mode, r["resolved"], r["first"][:2]), r)
+            elif r["kind"] == "history":
+                ck.coverage["evaluations"] += r["steps"]
+                summary[mode]["history_steps"] = r["steps"]
+                if r["inconsistent"] or r["absent_resolved"]:
+                    ck.impl_violation("lookup-depends-on-history:" + mode, "link mode %s: the answer for a name depends on earlier lookups (%d inconsistent answers, %d absent names resolved on a repeated lookup); first: %s" % (
+                        mode, r["inconsistent"], r["absent_resolved"], r["first"][:1]), r)
             elif r["kind"] == "funcsample" and r["sample"]:
                 rc2, out2 = vlib.coq_eval("c10_%s" % mode.replace("-", "_"), coq_cases(r["sample"], r["anchor_entry"], r["anchor_mem"]), ck.wd, timeout=600)
                 flat = out2.replace("\n", " ")
